@@ -5,10 +5,10 @@
 #include "tp/tp_common.h"
 
 enum { O_END = 0, O_CREATE, O_TCREATE0, O_TCREATE1, O_ATTACH, O_INFL_MSG, O_INFL_READ, O_INFL_TIMER,
-       O_SHUT, O_SHUT_B, O_SHUT_W, O_WAIT, O_DESTROY, O_QUIESCE, O_INFL_BUSY, O_GATE_B, O_HOOK_WAITS };
+       O_SHUT, O_SHUT_B, O_SHUT_W, O_WAIT, O_DESTROY, O_QUIESCE, O_INFL_BUSY, O_GATE_B, O_HOOK_WAITS, O_INFL_STUCK, O_INFL_SYNC_BCAST };
 static const char *opname[] = { "end", "create", "threads_create(0)", "threads_create(skip_first)", "attach_first", "inflight:msg",
        "inflight:read-event", "inflight:timer", "shutdown", "shutdown(concurrent thread B)", "shutdown(from worker)", "shutdown_wait", "destroy", "quiesce", "inflight:busy-callback", "open-gate(thread G)",
-       "stop-hooks-call-shutdown_wait" };
+       "stop-hooks-call-shutdown_wait", "inflight:event-that-stays-ready", "inflight:sync-broadcast-from-a-worker" };
 
 #define MAXOPS 12
 typedef struct lvar_s {
@@ -55,6 +55,31 @@ infl_read_cb(tp_event_p ev, tp_udata_p ud) {
 	tpc_add(E_EVENT, (int)tpt_get_num(ud->tpt), (long)ev->event, (long)ev->flags, 0);
 	r = read((int)ud->ident, &c, 1);	/* consume: the level-triggered event goes quiet */
 	(void)r;
+}
+
+/* a persistent read event whose callback does not take the data: it stays ready for ever (a level-triggered event of
+ * real life: a listening socket nobody accepts from, a writable socket).  The callback yields so that the other threads
+ * of the scenario get to run between two rounds of the worker. */
+static tp_udata_t stuck_udata;
+static int stuck_pipe[2] = { -1, -1 }, stuck_calls = 0;
+static void
+infl_stuck_cb(tp_event_p ev, tp_udata_p ud) {
+	(void)ev; (void)ud;
+	stuck_calls ++;
+	sc_yield("stuck-event-callback");
+}
+
+/* a worker sends a synchronous broadcast to all others (while some slot may not be running) */
+static void
+sync_bcast_item_cb(tpt_p tpt, void *udata) { (void)tpt; (void)udata; }
+static void
+infl_sync_bcast_cb(tpt_p tpt, void *udata) {
+	size_t sent = 0, failed = 0; int rc;
+	(void)udata;
+	tpc_add(E_CB_BEGIN, (int)tpt_get_num(tpt), 888, 0, 0);
+	rc = tpt_msg_bsend_ex(tpt_get_tp(tpt), tpt, (TP_BMSG_F_SYNC | TP_BMSG_F_SELF_SKIP), sync_bcast_item_cb, NULL, &sent, &failed);
+	sc_log("sync broadcast from worker %d: rc=%d sent=%zu failed=%zu", (int)tpt_get_num(tpt), rc, sent, failed);
+	tpc_add(E_CB_END, (int)tpt_get_num(tpt), 888, 0, 0);
 }
 
 static void
@@ -219,6 +244,19 @@ life_scenario(int idx) {
 		case O_HOOK_WAITS:
 			hook_waits = 1;
 			break;
+		case O_INFL_STUCK:
+			if (0 != pipe(stuck_pipe) || 1 != write(stuck_pipe[1], "x", 1))
+				sc_fail("harness", "pipe");
+			memset(&stuck_udata, 0, sizeof(stuck_udata));
+			stuck_udata.cb_func = infl_stuck_cb;
+			stuck_udata.ident = (uintptr_t)stuck_pipe[0];
+			rc = tpt_ev_add_args2(target_thread(), TP_EV_READ, 0, &stuck_udata);
+			sc_log("inflight stuck event rc=%d", rc);
+			break;
+		case O_INFL_SYNC_BCAST:
+			rc = tpt_msg_send(target_thread(), NULL, 0, infl_sync_bcast_cb, NULL);
+			sc_log("inflight sync broadcast seed rc=%d", rc);
+			break;
 		}
 	}
 	if (have_b)
@@ -244,6 +282,9 @@ balances:
 			sc_fail("pvt-hook-missing", "virtual thread start hook ran %d times", tpc_starts[v->W]);
 	}
 	if (rd_pipe[0] >= 0) { close(rd_pipe[0]); close(rd_pipe[1]); }
+	if (stuck_pipe[0] >= 0) { close(stuck_pipe[0]); close(stuck_pipe[1]); }
+	if (tpc_count(E_CB_BEGIN, -1, 888) != tpc_count(E_CB_END, -1, 888))
+		sc_fail("callback-cut-short", "the pool was torn down while a worker was still inside its synchronous broadcast");
 	if (0 != sc_threads_unjoined())
 		sc_fail("thread-not-joined", "%d created thread(s) were never joined", sc_threads_unjoined());
 	if (0 != sc_live_allocs())
